@@ -451,3 +451,173 @@ Proof.
       destruct (adv_plan_gather _ _ _ _ Hinc EP HS) as [E Hr]. injection E as -> ->.
       exists is. cbn. rewrite mapM_wrap_id by assumption. cbn. repeat split; [|discriminate]. now rewrite Hid.
 Qed.
+
+(* ------------------------------------------------------------------ N-d *)
+
+Lemma nd_sels : forall shape ixs1 ixs2 lks sels sels1,
+  Forall (fun d => 0 <= d) shape ->
+  List.length ixs1 = List.length shape -> List.length ixs2 = List.length shape ->
+  mapM (fun p => mk_lookup (fst p) (snd p)) (combine shape ixs1) = Ok lks ->
+  mapM (fun p => ps <- resolve_keep (fst p) (snd p) ;; Ok (ps, false)) (combine shape ixs1) = Ok sels1 ->
+  mapM (fun p => axis_sel (fst (fst p)) (snd (fst p)) (snd p)) (combine (combine shape lks) ixs2) = Ok sels ->
+  exists sels2,
+    mapM (fun p => resolve (fst p) (snd p)) (combine (take_shape sels1) ixs2) = Ok sels2
+    /\ sels = compose_sels sels1 sels2
+    /\ List.length sels1 = List.length sels2
+    /\ List.length sels1 = List.length shape
+    /\ Forall (fun s => snd s = false) sels1
+    /\ Forall2 (fun a b => in_range (zlen (fst a)) (fst b) /\ (snd b = true -> fst b <> [])) sels1 sels2.
+Proof.
+  induction shape as [|n shape IH]; intros ixs1 ixs2 lks sels sels1 Hs L1 L2 HL HK HS.
+  - destruct ixs1, ixs2; try discriminate. cbn in *. injection HL as <-. injection HK as <-. cbn in HS. injection HS as <-.
+    exists []. repeat split; constructor.
+  - destruct ixs1 as [|i1 ixs1], ixs2 as [|i2 ixs2]; try discriminate.
+    inversion Hs as [|? ? Hn Hs']; subst.
+    cbn [combine mapM fst snd] in HL, HK.
+    destruct (mk_lookup n i1) as [lk|] eqn:E1; [|discriminate]. cbn [bind] in HL.
+    destruct (mapM (fun p => mk_lookup (fst p) (snd p)) (combine shape ixs1)) as [lks'|] eqn:E2; [|discriminate].
+    cbn [bind] in HL. injection HL as <-.
+    destruct (resolve_keep n i1) as [p1|] eqn:E3; [|discriminate]. cbn [bind] in HK.
+    destruct (mapM (fun p => ps <- resolve_keep (fst p) (snd p) ;; Ok (ps, false)) (combine shape ixs1)) as [sels1'|] eqn:E4;
+      [|discriminate]. cbn [bind] in HK. injection HK as <-.
+    cbn [combine mapM fst snd] in HS.
+    destruct (axis_sel n lk i2) as [[g d]|] eqn:E5; [|discriminate]. cbn [bind] in HS.
+    destruct (mapM (fun p => axis_sel (fst (fst p)) (snd (fst p)) (snd p)) (combine (combine shape lks') ixs2)) as [sels'|] eqn:E6;
+      [|discriminate]. cbn [bind] in HS. injection HS as <-.
+    destruct (axis_sel_correct _ _ _ _ _ _ _ Hn E1 E3 E5) as [p2 [R [G ND]]].
+    destruct (IH ixs1 ixs2 lks' sels' sels1' Hs' ltac:(cbn in L1; lia) ltac:(cbn in L2; lia) E2 E4 E6)
+      as [sels2 [A [B [C [C' [D F]]]]]].
+    exists ((p2, d) :: sels2).
+    cbn [take_shape combine mapM fst snd]. rewrite R. cbn [bind]. rewrite A. cbn [bind].
+    repeat split.
+    + cbn [compose_sels compose_sel fst snd]. now rewrite G, B.
+    + cbn. now rewrite C.
+    + cbn. now rewrite C'.
+    + constructor; auto.
+    + constructor; auto. cbn [fst snd]. split; auto.
+      eapply resolve_in_range; [apply zlen_nonneg|exact R].
+Qed.
+
+(* C05_getitem: whenever the indexer answers, the answer is transforms(source[stage 1][stage 2])
+   under outer indexing -- for every source content, shape, stage-1 / stage-2 index tuple of any
+   kinds and every transform chain.  (Hypothesis: source[stage 1] exists, i.e. numpy accepts it.) *)
+Lemma getitem_correct shape ds k1 ts dt k2 li out a1 :
+  Forall (fun d => 0 <= d) shape ->
+  mk_lazy shape k1 ts dt = Ok li ->
+  oindex_keep (mk_nd shape ds) k1 = Ok a1 ->
+  getitem li ds k2 = Ok out ->
+  spec_getitem shape ds k1 ts dt k2 = Ok out.
+Proof.
+  intros Hs HM H1 HG. unfold mk_lazy in HM.
+  destruct (mapM _ _) as [lks|] eqn:EL in HM; [|discriminate]. cbn [bind] in HM.
+  destruct (lazy_shape _) in HM; [|discriminate]. cbn [bind] in HM. injection HM as <-.
+  unfold getitem, lazy_sels in HG. cbn [li_shape li_lookup li_ts li_dtype0] in HG.
+  destruct (mapM _ _) as [sels|] eqn:ES in HG; [|discriminate]. cbn [bind] in HG.
+  unfold spec_getitem. rewrite H1. cbn [bind].
+  unfold oindex_keep, keep_sels in H1. cbn [nd_shape nd_body] in H1.
+  destruct (mapM _ _) as [sels1|] eqn:EK in H1; [|discriminate]. cbn [bind] in H1. injection H1 as <-.
+  destruct (nd_sels shape _ _ lks sels sels1 Hs (pad_to_length _ _) (pad_to_length _ _) EL EK ES)
+    as [sels2 [A [B [C [C' [D F]]]]]].
+  unfold oindex, resolve_all. cbn [nd_shape nd_body].
+  assert (LT : List.length (take_shape sels1) = List.length shape).
+  { rewrite take_shape_keep by assumption. now rewrite map_length. }
+  rewrite LT, A. cbn [bind].
+  rewrite take_compose by assumption. rewrite <- B.
+  rewrite <- (take_shape_compose sels1 sels2 C), <- B. exact HG.
+Qed.
+
+(* ------------------------------------------------------------------ rejection clause *)
+
+Lemma mapM_ok_in {A B} (f : A -> res B) l ys x : mapM f l = Ok ys -> In x l -> exists y, f x = Ok y.
+Proof.
+  revert ys. induction l as [|a r IH]; intros ys H Hin; [contradiction|].
+  cbn in H. destruct (f a) eqn:E; [|discriminate]. cbn in H. destruct (mapM f r) eqn:E2; [|discriminate].
+  destruct Hin as [<-|Hin]; [eauto|]. eapply IH; eauto.
+Qed.
+
+(* a sequence that is not strictly increasing, or contains a negative integer, is rejected on an axis
+   without first-stage lookup; through a lookup the same holds for the mapped sequence *)
+Lemma axis_rejects n l : increasing l = false \/ (exists x, In x l /\ x < 0) -> axis_sel n None (AList l) = Err.
+Proof.
+  intro H. unfold axis_sel. cbn [map_stage2 bind axis_plan].
+  destruct (increasing l) eqn:Hinc; [|reflexivity].
+  destruct H as [H|[x [Hin Hx]]]; [discriminate|].
+  destruct l as [|y r]; [contradiction|]. cbn [adv_plan].
+  assert (y <= x). { destruct Hin as [<-|Hin]; [lia|]. pose proof (increasing_lb _ _ Hinc) as Hlb.
+                     rewrite Forall_forall in Hlb. specialize (Hlb x Hin). lia. }
+  assert (E : (y <? 0) = true) by lia. rewrite E. reflexivity.
+Qed.
+
+Lemma axis_rejects_mapped n l1 is : (forall vs, np_take l1 is = Ok vs -> increasing vs = false) ->
+  axis_sel n (Some l1) (AList is) = Err.
+Proof.
+  intro H. unfold axis_sel. cbn [map_stage2]. destruct (np_take l1 is) as [vs|] eqn:E; [|reflexivity].
+  cbn [bind axis_plan]. now rewrite (H vs eq_refl).
+Qed.
+
+(* N-d: an indexer that answers has accepted every axis *)
+Lemma getitem_ok_axes li ds ixs out : getitem li ds ixs = Ok out ->
+  forall n lk ix, In (n, lk, ix) (combine (combine (li_shape li) (li_lookup li)) (pad_to (List.length (li_shape li)) ixs)) ->
+  exists s, axis_sel n lk ix = Ok s.
+Proof.
+  intros HG n lk ix Hin. unfold getitem, lazy_sels in HG.
+  destruct (mapM _ _) as [sels|] eqn:E in HG; [|discriminate].
+  apply (mapM_ok_in _ _ _ _ E Hin).
+Qed.
+
+(* ------------------------------------------------------------------ shape / dtype through the chain *)
+
+Lemma tr_apply_shape_dtype t x y : tr_apply t x = Ok y ->
+  nd_shape (a_nd y) = tr_new_shape t (nd_shape (a_nd x)) /\ a_dtype y = tr_dtype t (a_dtype x).
+Proof.
+  destruct t as [a b dt| |]; cbn [tr_apply].
+  - intro H; injection H as <-. split; reflexivity.
+  - destruct (rev (nd_shape (a_nd x))) as [|d r]; [discriminate|]. destruct (d <=? 0); [discriminate|].
+    intro H; injection H as <-. split; reflexivity.
+  - intro H; injection H as <-. split; reflexivity.
+Qed.
+
+Lemma apply_transforms_shape_dtype ts : forall x y, apply_transforms ts x = Ok y ->
+  nd_shape (a_nd y) = fold_left (fun sh t => tr_new_shape t sh) ts (nd_shape (a_nd x))
+  /\ a_dtype y = fold_left (fun dt t => tr_dtype t dt) ts (a_dtype x).
+Proof.
+  induction ts as [|t r IH]; intros x y H; cbn in H.
+  - injection H as <-. split; reflexivity.
+  - destruct (tr_apply t x) as [z|] eqn:E; [|discriminate]. cbn in H.
+    destruct (tr_apply_shape_dtype _ _ _ E) as [S D]. destruct (IH _ _ H) as [S' D'].
+    cbn [fold_left]. rewrite <- S, <- D. split; assumption.
+Qed.
+
+Lemma getitem_shape_dtype li ds ixs out : getitem li ds ixs = Ok out ->
+  a_dtype out = lazy_dtype li /\
+  exists sels, lazy_sels li ixs = Ok sels /\
+    nd_shape (a_nd out) = fold_left (fun sh t => tr_new_shape t sh) (li_ts li) (take_shape sels).
+Proof.
+  intro HG. unfold getitem in HG. destruct (lazy_sels li ixs) as [sels|] eqn:E; [|discriminate]. cbn [bind] in HG.
+  destruct (apply_transforms_shape_dtype _ _ _ HG) as [S D]. split; [exact D|]. exists sels. split; [reflexivity|exact S].
+Qed.
+
+(* ------------------------------------------------------------------ open findings on LazyIndexer: witnesses *)
+
+Definition run_lazy (shape : list Z) (k1 k2 : list aidx) : res arr :=
+  li <- mk_lazy shape k1 [] 0 ;; getitem li (arange shape 0) k2.
+
+(* F23: li[::-1] raises although source[::-1] exists *)
+Lemma lazy_negative_step_refuted :
+  run_lazy [5] [] [ASlice None None (Some (-1))] = Err
+  /\ spec_getitem [5] (arange [5] 0) [] [] 0 [ASlice None None (Some (-1))] <> Err.
+Proof. split; [vm_compute; reflexivity|vm_compute; discriminate]. Qed.
+
+(* F24: LazyIndexer(x, keep=-1)[:] raises *)
+Lemma lazy_negative_stage1_int_refuted :
+  run_lazy [5] [AInt (-1)] [] = Err /\ spec_getitem [5] (arange [5] 0) [AInt (-1)] [] 0 [] <> Err.
+Proof. split; [vm_compute; reflexivity|vm_compute; discriminate]. Qed.
+
+(* non-vacuity of getitem_correct: a dense and a sparse two-stage selection answered by the model *)
+Lemma lazy_example_supported :
+  run_lazy [12; 3] [ASlice (Some 1) None None; AMask [true; false; true]] [AList [0; 2; 3; 7; 9]; AInt (-1)]
+  = spec_getitem [12; 3] (arange [12; 3] 0) [ASlice (Some 1) None None; AMask [true; false; true]] [] 0 [AList [0; 2; 3; 7; 9]; AInt (-1)]
+  /\ run_lazy [12; 3] [ASlice (Some 1) None None; AMask [true; false; true]] [AList [0; 2; 3; 7; 9]; AInt (-1)] <> Err
+  /\ run_lazy [12] [] [AList [0; 9]] = spec_getitem [12] (arange [12] 0) [] [] 0 [AList [0; 9]]
+  /\ run_lazy [12] [] [AList [0; 9]] <> Err.
+Proof. repeat split; vm_compute; try reflexivity; discriminate. Qed.
